@@ -266,7 +266,7 @@ class FPtoInt_SP(Logic):
         Mux2(self, 'shifted', shift_sign, shifted_right, shifted_left, shifted)
         too_big = g.hw_signed_gt_constant(real_e, 30)
         
-        final_m_pos = g.hw_range(shifted, 32+32, 32)
+        final_m_pos = g.hw_range(shifted, 31+32, 32)
         final_m_neg = g.hw_neg(final_m_pos)
         
         final_m = g.hw_if(sign, final_m_neg, final_m_pos)
